@@ -287,7 +287,7 @@ def _shard(shard, col: Collector):
         # an objective that RETURNS (a numpy array whose truth value is False, zeros, inf/nan, surplus auxiliary outputs) has not
         # failed: no retry, no re-sampling, nothing logged as failed
         from . import c05
-        for kind_ in ("ndarray", "tuple", "zero-list", "nonfinite", "surplus", "npscalar-list"):
+        for kind_ in ("ndarray", "tuple", "zero-list", "nonfinite", "surplus", "npscalar-list", "warns"):
             for parallel in (False, True):
                 for via in ("batch", "sweep"):
                     col.case()
